@@ -13,6 +13,8 @@ import RdfModel.Driver.Dataset
 import RdfModel.Driver.Prefix
 import RdfModel.Driver.Ttl
 import RdfModel.Driver.TtlDoc
+import RdfModel.Driver.TtlEnc
+import RdfModel.Driver.TtlP
 import RdfModel.Driver.Xsd
 import RdfModel.Driver.IRI
 import RdfModel.Driver.JsonLd
@@ -38,6 +40,8 @@ def dispatch (line : String) : String :=
         else if comp = "canon" then Driver.Canon.handle op args
         else if comp = "ttl" then Driver.Ttl.handle op args
         else if comp = "ttld" then Driver.TtlDoc.handle op args
+        else if comp = "ttle" then Driver.TtlEnc.handle op args
+        else if comp = "ttlp" then Driver.TtlP.handle op args
         else if comp = "xsd" then Driver.Xsd.handle op args
         else if comp = "bn" then Driver.BlankNodes.handle op args
         else if comp = "nqo" then Driver.NQO.handle op args
